@@ -53,7 +53,7 @@ def main():
             "guard": "OPENDSM_EEMETER_VERIF",
             "enable": "environment variable OPENDSM_EEMETER_VERIF=1 (set by ./check); pure-Python repository, nothing to rebuild",
             "baseline_off_cmd": "/venv/bin/python /verif/harness/baseline_off.py",
-            "source_commits": [],
+            "source_commits": ["78a61ec01f3abf67deee99a30d73462f35d60c3f"],
             "add_only": True,
         },
         "engines": [{
